@@ -15,14 +15,20 @@
      path = "read_headers": Http1Server.read_headers catches ValueError and answers itself
             "stream":       HttpStream sends ResponseProtocolError(message, code) to the client connection object
             "connect":      handle_connect_regular builds a plain 502 response (no template, no content type)
+            "exchange":     not a Request site: the page of an exchange whose upstream dies (see Exchange below)
+   A client connection may carry up to MaxEx complete exchanges (with / without Expect: 100-continue, streamed or
+   buffered) before the failing one; the failing one is a Request site or an exchange whose upstream closes early.
    A payload is a sequence of atoms; Atoms[a] = [cls, markup, nl] (nl: the atom is a line break; only sites with
    multiline = TRUE -- error text handed over by the connection attempt -- can carry one): cls = classes of its markup-significant characters,
    markup = tokens a tokeniser sees when the atom is copied raw (design variant only).
    Escape / CType are the two decisions of format_error / make_error_response; TRUE / "html" is the code as it is.  *)
 EXTENDS Mon_ErrorPage, TLC
-CONSTANTS Sites, Atoms, MaxAtoms, Escape, CType
-VARIABLES pc, sc, pend, mon, obs
-vars == <<pc, sc, pend, mon, obs>>
+CONSTANTS Sites, Atoms, MaxAtoms, Escape, CType,
+          MaxEx,          \* how many complete exchanges may precede the failing one on the same client connection
+          StickyInterim   \* FALSE = the code.  TRUE: a design in which "an interim 100 was sent" stays remembered and
+                          \* re-enables the error page (thorough requires the monitor to reject it)
+VARIABLES pc, sc, pend, conn, xc, mon, obs
+vars == <<pc, sc, pend, conn, xc, mon, obs>>
 
 Template == <<"html", "head", "title", "/title", "/head", "body", "h1", "/h1", "p", "/p", "/body", "/html">>
 AtomNames == DOMAIN Atoms
@@ -36,7 +42,12 @@ CountLt(s) == Cardinality({ i \in 1..Len(s) : s[i] = "lt" })
 IsRef(t) == t = "ref"
 
 NoSc == [site |-> "", proto |-> "", atoms |-> <<>>, sz |-> 0]
-Init == pc = "idle" /\ sc = NoSc /\ pend = 0 /\ mon = MonInit /\ obs = <<>>
+\* the HTTP/1 client connection: ex = exchanges completed on it; respSet = Http1Server.response is set (by the interim
+\* 100 or by the relayed final head; reset by mark_done); wire = what precedes the next byte written to the client
+\* ("none", "complete": only complete responses, "open": an unfinished response); interimEver: a 100 was ever sent
+NoConn == [ex |-> 0, respSet |-> FALSE, wire |-> "none", interimEver |-> FALSE]
+NoXc == [expect |-> FALSE, stream |-> FALSE, outcome |-> ""]
+Init == pc = "idle" /\ sc = NoSc /\ pend = 0 /\ conn = NoConn /\ xc = NoXc /\ mon = MonInit /\ obs = <<>>
 Live == mon.bad = <<>>
 Emit(evs) == obs' = evs /\ mon' = FoldEvents(MonStep, mon, evs)
 
@@ -57,7 +68,7 @@ Page(s, proto, atoms, sz) ==
       refl |-> site.reflects, inner |-> [i \in 1..Len(mk) |-> IF IsRef(mk[i]) THEN "ref" ELSE "markup"],
       src |-> ClsOf(atoms), dec |-> IF site.reflects THEN ClsOf(atoms) ELSE <<>>,
       parsed |-> ~H2EndLost(proto, sz), has_len |-> proto = "h1", chunked |-> FALSE, delta |-> 0,
-      closed |-> proto = "h1"]
+      closed |-> proto = "h1", prior |-> IF proto = "h1" THEN conn.wire ELSE "none"]
 
 \* handle_connect_regular: Response.make(502, "Cannot connect to ...: {err} ..."): plain text, no content type, sent
 \* through the ordinary response path; the HTML projection does not apply to it
@@ -65,45 +76,89 @@ PlainPage(s, proto, atoms) ==
   [k |-> "page", site |-> s, proto |-> proto, srck |-> Sites[s].srck, status |-> Sites[s].status,
    ctype |-> "none", html0 |-> FALSE, skel |-> <<>>, skel0 |-> <<>>, nlt |-> 0, nlt0 |-> 0,
    refl |-> FALSE, inner |-> <<>>, src |-> ClsOf(atoms), dec |-> <<>>,
-   parsed |-> TRUE, has_len |-> TRUE, chunked |-> FALSE, delta |-> 0, closed |-> FALSE]
+   parsed |-> TRUE, has_len |-> TRUE, chunked |-> FALSE, delta |-> 0, closed |-> FALSE, prior |-> conn.wire]
 
 \* the client (and, for upstream sources, the server / the connect attempt) delivers the input
 \* sz: size class of the reflected text (0 short, 1 > 16 KiB, 2 > 64 KiB); long texts only where the source can carry
 \* them (Sites[s].maxsize), class 2 only towards HTTP/1 clients, and with single-atom payloads (keeps the table small)
 Request(s, proto, atoms, sz) ==
-  /\ Live /\ pc = "idle" /\ proto \in Sites[s].protos
+  /\ Live /\ pc = "idle" /\ proto \in Sites[s].protos /\ Sites[s].path # "exchange"
+  /\ (conn.ex > 0 => proto = "h1" /\ Len(atoms) = 1 /\ sz = 0)     \* after a history: HTTP/1, small table
   /\ sz <= Sites[s].maxsize /\ (sz = 2 => proto = "h1") /\ (sz > 0 => Len(atoms) = 1)
   /\ \A i \in 1..Len(atoms) : Atoms[atoms[i]].nl => Sites[s].multiline   \* only some sources can carry a line break
   /\ sc' = [site |-> s, proto |-> proto, atoms |-> atoms, sz |-> sz]
-  /\ pc' = Sites[s].path /\ UNCHANGED pend
+  /\ pc' = Sites[s].path /\ UNCHANGED <<pend, conn, xc>>
   /\ Emit(<<[k |-> "input", site |-> s, proto |-> proto, srck |-> Sites[s].srck, src |-> ClsOf(atoms),
              lines |-> Lines(atoms), size |-> sz]>>)
 
 \* Http1Server.read_headers: except ValueError -> SendData(make_error_response(400, str(e))); CloseConnection
 H1ReadHeadersError ==
-  /\ Live /\ pc = "read_headers" /\ pc' = "done" /\ UNCHANGED <<sc, pend>>
+  /\ Live /\ pc = "read_headers" /\ pc' = "done" /\ UNCHANGED <<sc, pend, conn, xc>>
   /\ Emit(<<Page(sc.site, "h1", sc.atoms, sc.sz)>>)
 
 \* HttpStream: yield SendHttp(ResponseProtocolError(stream_id, message, code), client); code.http_status_code()
 StreamError ==
-  /\ Live /\ pc = "stream" /\ pc' = "send_" \o sc.proto /\ pend' = Sites[sc.site].status /\ UNCHANGED sc
+  /\ Live /\ pc = "stream" /\ pc' = "send_" \o sc.proto /\ pend' = Sites[sc.site].status /\ UNCHANGED <<sc, conn, xc>>
   /\ Emit(<<>>)
 
 \* Http1Server.send(ResponseProtocolError): no response started and a status -> make_error_response; CloseConnection
 H1SendError ==
-  /\ Live /\ pc = "send_h1" /\ pc' = "done" /\ UNCHANGED <<sc, pend>>
+  /\ Live /\ pc = "send_h1" /\ pc' = "done" /\ UNCHANGED <<sc, pend, conn, xc>>
   /\ Emit(<<Page(sc.site, "h1", sc.atoms, sc.sz)>>)
 
 \* Http2Connection: headers not sent yet and a status -> send_headers + send_data(format_error(...), end_stream=True)
 H2SendError ==
-  /\ Live /\ pc = "send_h2" /\ pc' = "done" /\ UNCHANGED <<sc, pend>>
+  /\ Live /\ pc = "send_h2" /\ pc' = "done" /\ UNCHANGED <<sc, pend, conn, xc>>
   /\ Emit(<<Page(sc.site, "h2", sc.atoms, sc.sz)>>)
 
 ConnectEagerFail ==
-  /\ Live /\ pc = "connect" /\ pc' = "done" /\ UNCHANGED <<sc, pend>>
+  /\ Live /\ pc = "connect" /\ pc' = "done" /\ UNCHANGED <<sc, pend, conn, xc>>
   /\ Emit(<<PlainPage(sc.site, sc.proto, sc.atoms)>>)
 
-Finish == /\ Live /\ pc = "done" /\ pc' = "ended" /\ UNCHANGED <<sc, pend>> /\ Emit(<<[k |-> "end"]>>)
+Finish == /\ Live /\ pc = "done" /\ pc' = "ended" /\ UNCHANGED <<sc, pend, conn, xc>> /\ Emit(<<[k |-> "end"]>>)
+
+\* ---- histories on one HTTP/1 client connection -------------------------------------------------------------------
+\* Exchange(expect, stream, outcome): the client sends a request (with or without Expect: 100-continue), an addon does
+\* or does not stream the response, and the upstream answers completely ("ok"), closes before any response byte
+\* ("before_head") or closes in the middle of the body ("mid_body").
+Resp(st, c) == [k |-> "resp", status |-> st, complete |-> c]
+Exchange(expect, stream, outcome) ==
+  /\ Live /\ pc = "idle" /\ (outcome = "ok" => conn.ex < MaxEx)
+  /\ xc' = [expect |-> expect, stream |-> stream, outcome |-> outcome]
+  /\ pc' = "x_req" /\ UNCHANGED <<sc, pend, conn>>
+  /\ Emit(<<[k |-> "input", site |-> "exchange", proto |-> "h1", srck |-> "none", src |-> <<>>, lines |-> 1, size |-> 0,
+             expect |-> expect, stream |-> stream, outcome |-> outcome]>>)
+
+\* HttpStream.state_wait_for_request_headers: expect: 100-continue -> SendHttp(ResponseHeaders(100 Continue));
+\* Http1Server.send(ResponseHeaders): self.response = event.response  (also for the interim response)
+XRequestHeaders ==
+  /\ Live /\ pc = "x_req" /\ pc' = "x_upstream" /\ UNCHANGED <<sc, pend, xc>>
+  /\ IF xc.expect
+       THEN /\ conn' = [conn EXCEPT !.respSet = TRUE, !.wire = "complete", !.interimEver = TRUE]
+            /\ Emit(<<Resp(100, TRUE)>>)
+       ELSE /\ UNCHANGED conn /\ Emit(<<>>)
+
+\* the whole response arrives and is relayed (buffered or streamed: same bytes); mark_done resets request/response
+XUpstreamOk ==
+  /\ Live /\ pc = "x_upstream" /\ xc.outcome = "ok" /\ pc' = "idle" /\ UNCHANGED <<sc, pend, xc>>
+  /\ conn' = [conn EXCEPT !.ex = @ + 1, !.respSet = FALSE, !.wire = "complete"]
+  /\ Emit(<<Resp(200, TRUE)>>)
+
+\* the response head and part of the body arrive; with streaming the head (and the part) is already on the wire
+XUpstreamPartial ==
+  /\ Live /\ pc = "x_upstream" /\ xc.outcome # "ok" /\ pc' = "x_fault" /\ UNCHANGED <<sc, pend, xc>>
+  /\ IF xc.outcome = "mid_body" /\ xc.stream
+       THEN /\ conn' = [conn EXCEPT !.respSet = TRUE, !.wire = "open"]
+            /\ Emit(<<Resp(200, FALSE)>>)
+       ELSE /\ UNCHANGED conn /\ Emit(<<>>)
+
+\* Http1Client: ConnectionClosed -> ResponseProtocolError(GENERIC_SERVER_ERROR); HttpStream.handle_protocol_error ->
+\* SendHttp(event, client); Http1Server.send: "if not self.response and status is not None": page; CloseConnection
+XFault ==
+  /\ Live /\ pc = "x_fault" /\ pc' = "done" /\ UNCHANGED <<sc, pend, conn, xc>>
+  /\ IF ~conn.respSet \/ (StickyInterim /\ conn.interimEver)
+       THEN Emit(<<Page("upstream_closed", "h1", <<>>, 0)>>)
+       ELSE Emit(<<>>)
 
 Next == \/ \E s \in DOMAIN Sites, proto \in {"h1", "h2"}, atoms \in Payloads, sz \in 0..2 : Request(s, proto, atoms, sz)
         \/ H1ReadHeadersError
@@ -111,6 +166,11 @@ Next == \/ \E s \in DOMAIN Sites, proto \in {"h1", "h2"}, atoms \in Payloads, sz
         \/ H1SendError
         \/ H2SendError
         \/ ConnectEagerFail
+        \/ \E e \in BOOLEAN, st \in BOOLEAN, o \in {"ok", "before_head", "mid_body"} : Exchange(e, st, o)
+        \/ XRequestHeaders
+        \/ XUpstreamOk
+        \/ XUpstreamPartial
+        \/ XFault
         \/ Finish
 Spec == Init /\ [][Next]_vars
 Report == mon.bad # <<>> => PrintT(<<"BAD", mon.bad>>)
